@@ -97,6 +97,7 @@ def check_c16(tier, seed, V):
 
 
 SPECIAL = {"C16": check_c16}
+SPECIAL_INFO_PLACEHOLDER = 1
 SPECIAL_INFO = {
     "C16": {"engine": "tlc-enumeration+go", "level": "model_checking",
             "level_text": "ConfigValid.tla states the documented accept condition and the offending-field relation over symbolic durations; TLC "
@@ -105,3 +106,153 @@ SPECIAL_INFO = {
             "level_note": "trusted: TLC, the instantiation m*B+o of symbolic durations; the lattice is finite (boundaries and neighbours), not all of int64",
             "technique": "TLA+ transcription of the component; TLC-enumerated cases executed on the real function and judged by TLA+ operators"},
 }
+
+# --------------------------------------------------------------------------------------------
+def check_c15(tier, seed, V):
+    t0 = time.time()
+    th = V.tree_hash()
+    binary = V.build_harness(th)
+    d = os.path.join(V.WORK, "pure", "c15-%s-%s-%d" % (th, tier, seed))
+    os.makedirs(d, exist_ok=True)
+    cfg = "ErrClass.cfg" if tier == "quick" else "ErrClass_thorough.cfg"
+    terms = os.path.join(d, "terms.ndjson")
+    out, st = tlc_io(V, "ErrClassGen.tla", cfg, {"OUT": terms})
+    nterms = sum(1 for _ in open(terms))
+    res = os.path.join(d, "results.ndjson")
+    run_go_test(V, binary, "TestErrClass", {"VERIF_IN": terms, "VERIF_OUT": res, "VERIF_SEED": str(seed),
+                                            "VERIF_NRANDOM": "2000" if tier == "quick" else "50000"})
+    rows = [json.loads(l) for l in open(res)]
+    bad_p = os.path.join(d, "bad.ndjson")
+    tlc_io(V, "ErrClassCheck.tla", cfg, {"IN": res, "OUT": bad_p})
+    bad = [json.loads(l) for l in open(bad_p) if l.strip()]
+    captured = [r for r in rows if r["note"].startswith("captured")]
+    cov = {"states": nterms, "transitions": len(rows), "traces_validated_against_impl": len(rows),
+           "samples": [r for r in rows if r["ws"]][:2] + captured[:2], "evaluations": len(rows),
+           "distinct_nontrivial": len({(r["leaf"], tuple(r["ws"]), r["text"]) for r in rows if r["leaf"] != "nil"}),
+           "rule": "TLC enumerates every term leaf x wrapper sequence (<= %s wrappers) of ErrClass.tla and checks the transcription of error.go against "
+                   "Required on all of them; the harness builds the real Go value of each term, adds the error values captured from an embedded "
+                   "nats-server through the library's adapter and seeded random message texts, calls the real IsPermanentError/IsTransientError, and "
+                   "ErrClassCheck.tla judges every outcome (exclusive, total, required class); distinct by (leaf, wrappers, text)" % ("2" if tier == "quick" else "3"),
+           "terms": nterms, "captured_from_real_nats": sorted({r["note"] for r in captured}), "random_texts": sum(1 for r in rows if r["leaf"] == "random"),
+           "exhaustive": False}
+    shutil.rmtree(d, ignore_errors=True)
+    return finish(V, "C15", tier, seed, t0, bad, {"how": "python3 tools/verif.py check C15"}, cov,
+                  ["an error value is abstracted to (what errors.Is/As reach, which classifier patterns its text contains); "
+                   "terms with both a transient and a permanent marker in the chain are left open by the statement ('either')",
+                   "embedded nats-server 2.12.2 / nats.go 1.47 provide the client's real error values"])
+
+
+SPECIAL["C15"] = check_c15
+SPECIAL_INFO["C15"] = {
+    "engine": "tlc-enumeration+go", "level": "model_checking",
+    "level_text": "ErrClass.tla models an error value as a term (leaf, wrappers) with the two attributes a classifier can observe; Required transcribes the "
+                  "statement, Impl transcribes error.go. TLC enumerates all terms up to the wrapping bound, checks Impl against Required, and every term is "
+                  "built as a real Go value (NATS leaves also captured from a real embedded server through the adapter) and classified by the real code; "
+                  "TLC judges each real outcome.",
+    "level_note": "trusted: TLC, the term-to-Go-value construction in the harness, the embedded nats-server as source of the client's error values; bounded wrapping depth",
+    "technique": "TLA+ transcription of the component; TLC-enumerated cases executed on the real function and judged by TLA+ operators"}
+
+# --------------------------------------------------------------------------------------------
+def check_c17(tier, seed, V):
+    t0 = time.time()
+    th = V.tree_hash()
+    binary = V.build_harness(th)
+    d = os.path.join(V.WORK, "pure", "c17-%s-%s-%d" % (th, tier, seed))
+    os.makedirs(d, exist_ok=True)
+    cfg = "Retry.cfg" if tier == "quick" else "Retry_thorough.cfg"
+    rs, bs = os.path.join(d, "retry.ndjson"), os.path.join(d, "breaker.ndjson")
+    tlc_io(V, "RetryGen.tla", cfg, {"OUTR": rs, "OUTB": bs})
+    nrs, nbs = sum(1 for _ in open(rs)), sum(1 for _ in open(bs))
+    res = os.path.join(d, "results.ndjson")
+    run_go_test(V, binary, "TestRetry", {"VERIF_IN_RETRY": rs, "VERIF_IN_BREAKER": bs, "VERIF_OUT": res, "VERIF_SEED": str(seed),
+                                         "VERIF_BACKOFF_REPS": "2" if tier == "quick" else "20"})
+    rows = [json.loads(l) for l in open(res)]
+    bad_p = os.path.join(d, "bad.ndjson")
+    tlc_io(V, "RetryCheck.tla", cfg, {"IN": res, "OUT": bad_p})
+    bad = [json.loads(l) for l in open(bad_p) if l.strip()]
+    # clause (b): acquisition rounds observed in simulated elections (judged by MonitorTrace.tla)
+    rounds = 0
+    for fam in ("core", "vacancy"):
+        cd, meta = V.corpus(th, fam, tier, seed)
+        for line in open(os.path.join(cd, "trace.ndjson")):
+            if '"round_start"' in line:
+                rounds += 1
+        for line in open(os.path.join(cd, "viol.ndjson")):
+            if line.strip():
+                v = json.loads(line)
+                if v["p"] == "C17":
+                    bad.append({"row": 0, "clauses": [v["c"]], "r": {"scenario": v["scn"], "event": v["seq"], "family": fam}})
+    kinds = {k: sum(1 for r in rows if r["kind"] == k) for k in ("retry", "breaker", "backoff")}
+    cov = {"states": nrs + nbs, "transitions": len(rows), "traces_validated_against_impl": len(rows) + rounds,
+           "samples": [next(r for r in rows if r["kind"] == k and (k != "retry" or r["waits"])) for k in ("retry", "breaker", "backoff")],
+           "evaluations": len(rows) + rounds,
+           "distinct_nontrivial": len({json.dumps(r, sort_keys=True) for r in rows if r["kind"] != "backoff" or r["n"] > 0}),
+           "rule": "TLC enumerates every RetryWithBackoff scenario (MaxAttempts 0..4 x outcome prefixes x cancellation points x breaker) and every "
+                   "CircuitBreaker call sequence on the cool-down lattice {0,C-1,C,C+1} of Retry.tla; each is executed on the real function under "
+                   "testing/synctest and judged by RetryCheck.tla (invocation count, result, waits inside the back-off window; breaker invocation/result per call); "
+                   "CalculateBackoff is sampled over configurations x attempt numbers (up to 2e9) and judged by the saturating window operator; acquisition rounds of "
+                   "simulated elections are judged by MonitorTrace.tla (jitter 10-100 ms, back-off windows, at most four attempts)",
+           "by_kind": kinds, "acquisition_rounds_observed": rounds, "exhaustive": False}
+    shutil.rmtree(d, ignore_errors=True)
+    return finish(V, "C17", tier, seed, t0, bad, {"how": "python3 tools/verif.py check C17"}, cov,
+                  ["CalculateBackoff is judged for Initial >= 0, Max >= Initial, Multiplier >= 1, 0 <= Jitter <= 1 (rational multipliers, ms resolution)",
+                   "float rounding is given 1 ms + 1 % in the window operator"])
+
+
+SPECIAL["C17"] = check_c17
+SPECIAL_INFO["C17"] = {
+    "engine": "tlc-enumeration+go", "level": "model_checking",
+    "level_text": "Retry.tla specifies the required behaviour of RetryWithBackoff and CircuitBreaker as recursive operators over scenarios; TLC enumerates all "
+                  "scenarios within the bounds, the real functions execute each under virtual time, and TLC judges every observed behaviour (calls, results, waits). "
+                  "CalculateBackoff is judged by a saturating integer window operator on sampled inputs; acquisition rounds are judged on election traces.",
+    "level_note": "trusted: TLC, testing/synctest virtual time; bounds: outcome prefixes <= 4/5, breaker sequences <= 3/4 calls, sampled back-off configurations",
+    "technique": "TLA+ specification of the sequential components; TLC-enumerated scenarios executed on the real functions and judged by TLA+ operators"}
+
+# --------------------------------------------------------------------------------------------
+def check_c14(tier, seed, V):
+    t0 = time.time()
+    th = V.tree_hash()
+    binary = V.build_harness(th)
+    d = os.path.join(V.WORK, "pure", "c14-%s-%s-%d" % (th, tier, seed))
+    os.makedirs(d, exist_ok=True)
+    # the contract itself, as a state machine (design level)
+    out0, st0 = tlc_io(V, "KVStore.tla", "KVStore.cfg", {}, heap="-Xmx8g")
+    depth = "3" if tier == "quick" else "4"
+    seqs = os.path.join(d, "seqs.ndjson")
+    tlc_io(V, "KVStoreGen.tla", "KVStoreGen.cfg", {"DEPTH": depth, "OUT": seqs})
+    nseq = sum(1 for _ in open(seqs))
+    res = os.path.join(d, "results.ndjson")
+    run_go_test(V, binary, "TestKVContract", {"VERIF_IN": seqs, "VERIF_OUT": res, "VERIF_SEED": str(seed),
+                                              "VERIF_MAX_EXPIRE_SEQS": "120" if tier == "quick" else "-1"}, timeout=3000)
+    rows = [json.loads(l) for l in open(res)]
+    bad_p = os.path.join(d, "bad.ndjson")
+    tlc_io(V, "KVStoreCheck.tla", "KVStoreGen.cfg", {"IN": res, "OUT": bad_p})
+    bad = [json.loads(l) for l in open(bad_p) if l.strip()]
+    adapter = [r for r in rows if r.get("impl") == "adapter" and r["kind"] == "seq"]
+    ref = [r for r in rows if r.get("impl") == "refstore"]
+    cov = {"states": st0.get("distinct", 0) + nseq, "transitions": st0.get("generated", 0) + sum(len(r["ops"]) for r in rows if r["kind"] == "seq"),
+           "traces_validated_against_impl": len(adapter) + len(ref),
+           "samples": [r for r in adapter if len(r["ops"]) >= 3 and r["got_watchers"]][:2] + [r for r in rows if r["kind"] == "watchstable"],
+           "evaluations": len(rows),
+           "distinct_nontrivial": len({json.dumps([(o["op"], o["exp"], o["ok"]) for o in r["ops"]]) for r in adapter}),
+           "rule": "KVStore.tla is model-checked as a state machine (Contract, WatchOrder); KVStoreGen.tla enumerates every operation sequence up to depth %s over "
+                   "{create, update(latest|last-seq|0|stale|future), get, delete, wait-for-expiry, watch, write-other-key} with the expected result of every operation and the "
+                   "expected event list of every watcher; each sequence runs through the library's adapter on a fresh bucket (TTL 1 s) of an embedded nats-server and on the "
+                   "harness' reference store (virtual time); KVStoreCheck.tla judges every answer. Sequences that wait for real expiry are limited in quick. "
+                   "Distinct by (operation, expected revision, expected outcome) sequence." % depth,
+           "sequences": nseq, "adapter_sequences": len(adapter), "refstore_sequences": len(ref),
+           "adapter_sequences_with_expiry": sum(1 for r in adapter if any(o["op"] == "expire" for o in r["ops"])), "exhaustive": False}
+    shutil.rmtree(d, ignore_errors=True)
+    return finish(V, "C14", tier, seed, t0, bad, {"how": "python3 tools/verif.py check C14"}, cov,
+                  ["embedded nats-server 2.12.2 / nats.go 1.47 from the module cache; memory storage; expiry observed 0.6 s after MaxAge",
+                   "values are short ASCII strings; 'arbitrary values' are not explored beyond that"])
+
+
+SPECIAL["C14"] = check_c14
+SPECIAL_INFO["C14"] = {
+    "engine": "tlc-enumeration+go+nats", "level": "model_checking",
+    "level_text": "KVStore.tla is the store contract (checked by TLC as a state machine); TLC generates every operation sequence up to the depth bound with expected "
+                  "results and watcher event lists; the sequences are replayed through the library's NATS adapter against a real embedded JetStream server and on the "
+                  "reference store used by all other checks, and TLC judges each answer against the contract.",
+    "level_note": "trusted: TLC, the embedded nats-server as the real JetStream; real time (expiry waits) limits the number of expiry sequences in the quick tier",
+    "technique": "TLA+ store contract; TLC-generated behaviours replayed on the real adapter + embedded NATS and on the reference store"}
